@@ -45,7 +45,7 @@ def run(ctx):
     # two families: every shape (the reversal rule wants chains), and anchors + single steps only (the reordering rule wants several independent anchors)
     for shapes, num in (('{"node", "step", "var", "chain", "chain3"}', 600 if quick else 5000), ('{"node", "step"}', 500 if quick else 4000)):
         s = ctx.tlc(AREA, "QueryGen", cfg_text='SPECIFICATION Spec\nCONSTANTS\n  MaxClauses = 3\n  Shapes = %s\n  Family = "random"\nCHECK_DEADLOCK FALSE\n' % shapes, workers=1,
-                    simulate="num=%d" % num, depth=5, timeout=3000)
+                    simulate="num=%d" % num, depth=40, timeout=3000)
         skeletons += ctx.printed_json(s.out)
     a = ctx.tlc(AREA, "QueryGen", cfg_text='SPECIFICATION Spec\nCONSTANTS\n  MaxClauses = 3\n  Shapes = {"node", "step", "var"}\n  Family = "anchors"\nCHECK_DEADLOCK FALSE\n', workers=1, timeout=900)
     anchors = ctx.printed_json(a.out)
